@@ -223,24 +223,24 @@ def helper_cases(ctx):
             for i in range(0, n // k + 2):
                 dxs = max(1, min(k, n - 1 - i * k))
                 cases.append(integrate_case(I, s, i, k, F(3, 4), 'exact' if dxs in (1, 2, 4) else 'float'))
-    for _ in range(ctx.n(300, 6000)):
+    for _ in range(ctx.n(300, 3000)):
         k = rnd.choice([1, 1, 2, 3, 4, 6, 12, 52])
         life = rnd.choice([1, 2, 3, 5, 10, 30] + ([] if ctx.quick else [60, 100]))
         n = max(0, life * k + rnd.choice([0, 0, 0, 1, -1, -k]))
         i = rnd.choice([0, life - 1, life - 1, rnd.randint(0, life - 1), rnd.randint(0, life - 1), life])
         cases.append(integrate_case(I, series(n, 1, 90), i, k, round(fl(0.5, 0.99), 3), 'float'))
     # annual_electricity_pumping_power: five distinct series, every end-use option
-    for _ in range(ctx.n(120, 2000)):
+    for _ in range(ctx.n(120, 1000)):
         code = rnd.choice(ENDUSE_CODES)
         life, k = rnd.choice([1, 2, 3, 5, 10]), rnd.choice([1, 2, 4, 12])
         n = life * k + rnd.choice([0, 0, 1])
         cases.append(annual_case(I, code, life, k, round(fl(0.5, 0.99), 3), series(n, 40, 90), series(n, 0.1, 3), series(n, 3, 9),
                                  series(n, 1, 6), series(n, 5, 30) if code != 1 else []))
     # remaining heat content
-    for _ in range(ctx.n(80, 1000)):
+    for _ in range(ctx.n(80, 500)):
         cases.append(remaining_case(I, round(fl(50, 900), 3), series(rnd.choice([0, 1, 2, 3, 7, 30, 100]), 1e7, 2e9)))
     # electricity_heat_production: every end-use option, error branches
-    for _ in range(ctx.n(250, 5000)):
+    for _ in range(ctx.n(250, 2500)):
         code = rnd.choice(ENDUSE_CODES)
         n = rnd.choice([1, 2, 3, 5, 8])
         la = n
@@ -258,7 +258,7 @@ def helper_cases(ctx):
                               round(fl(90, 150), 1), round(fl(0.5, 0.95), 2), round(fl(0.1, 0.9), 2), avail, series(n, 0.05, 0.2),
                               series(n, 120, 300), series(nr, 60, 95)))
     # reinjection_temperature: random coefficients, both brackets, the Tinj update in both directions, empty series
-    for idx in range(ctx.n(120, 2000)):
+    for idx in range(ctx.n(120, 1000)):
         amb = rnd.choice([-5, 0, 5, 10, 14.9, 15, 15.1, 20, 25, 30, round(fl(0, 30), 1)])
         n = rnd.choice([1, 2, 3, 6]) if idx else 0
         coefs = [float('%.4g' % fl(-0.2, 0.4)), float('%.4g' % fl(0.001, 0.01)), float('%.3g' % fl(-2e-5, 2e-5))] * 2 + \
@@ -275,7 +275,7 @@ def helper_cases(ctx):
             for amb in [0, 5, 10, 14.9, 15, 15.1, 20, 25, 32] + [round(fl(0, 30), 1) for _ in range(ctx.n(3, 20))]:
                 cases.append(reinj_case(I, amb, -1000.0, low if amb < 15 else high, series(4, 90, 330), plant=code))
     # district heating day-by-day split
-    for idx in range(ctx.n(10, 120)):
+    for idx in range(ctx.n(10, 60)):
         life, k = rnd.choice([1, 2, 3]), rnd.choice([1, 2, 4, 12])
         fp = [round(x, 3) for x in series(life * k + rnd.choice([0, 0, 1]), 8, 30)]
         dem = _demand(rnd, rnd.uniform(8, 25), rnd.uniform(3, 15))
@@ -627,7 +627,7 @@ def gen_runs(ctx):
         runs.append(('example:SUTRAExample1.txt', (fw.REPO / 'tests' / 'examples' / 'SUTRAExample1.txt').read_text()))
     lives = [1, 2, 3, 7] if ctx.quick else [1, 2, 3, 7, 30, 100]
     cells = [(eu, pl) for eu in configs.ENDUSES for pl in (configs.ELEC_PLANTS if eu != 2 else configs.HEAT_PLANTS)]
-    for rep in range(ctx.n(2, 12)):
+    for rep in range(ctx.n(2, 8)):
         for eu, pl in cells + [(2, 5), (2, 6), (2, 9)]:       # the direct-use plants twice per round
             dh = pl == 7
             if dh and rep >= ctx.n(2, 4):
@@ -640,7 +640,7 @@ def gen_runs(ctx):
             opts = dict(addons=False, overpressure=False) if dh else _opts(rnd)
             runs.append((f'cell:eu{eu}:plant{pl}:{rep}:{len(runs)}',
                          _synthetic(rnd, life, tspy, enduse=eu, plant=pl, resmodel=resm, **opts)))
-    for i in range(ctx.n(12, 100)):     # long series, add-ons
+    for i in range(ctx.n(12, 60)):     # long series, add-ons
         eu = rnd.choice(configs.ENDUSES)
         pl = rnd.choice(configs.ELEC_PLANTS if eu != 2 else [5, 6, 9])
         runs.append((f'long:{i}', _synthetic(rnd, rnd.choice([10, 20, 30, 35] + ([] if ctx.quick else [60, 100])),
